@@ -185,6 +185,36 @@ HOSTILE_VALUES = [None, True, False, 0, -1, 2**31, -2**31 - 1, 2**53 + 1, 10**50
                   {'req': True, 'nested': {'req': True, 'nested': {'req': 1}}}, ['ADMIN', 'NOPE'], 3.0, '7', {'q': 10**5000, 'req': True}]
 
 
+# characters whose lower / upper / folded form has another length or another script: near-miss names made of them end up in the
+# "did you mean" machinery (unknown enum value, unknown input field)
+CASE_ODDITIES = [chr(0x130), chr(0x131), chr(0xdf), chr(0x1c5), chr(0xfb01), chr(0x212a), chr(0x1e9e), chr(0x149), chr(0x3a3), chr(0x390)]
+SCHEMA_NAMES = ['ADMIN', 'USER', 'GUEST', 'q', 'min', 'roles', 'nested', 'req', 'ids', 'byId', 'byName', 'byFilter']
+
+
+def near_name(rng):
+    base = list(rng.choice(SCHEMA_NAMES))
+    for _ in range(rng.randint(1, 3)):
+        k = rng.random()
+        ch = rng.choice(CASE_ODDITIES)
+        if k < 0.5 and base:
+            base[rng.randrange(len(base))] = ch
+        elif k < 0.8:
+            base.insert(rng.randint(0, len(base)), ch)
+        else:
+            base = [ch] * rng.randint(1, 5)
+    s = ''.join(base)
+    return rng.choice([s, s.upper(), s.lower(), s.swapcase()])
+
+
+def near_value(rng):
+    k = rng.random()
+    if k < 0.4:
+        return near_name(rng)
+    if k < 0.8:
+        return {near_name(rng): rng.choice([1, 'x', None, True]), 'req': True}
+    return [near_name(rng), {'nested': {near_name(rng): 1, 'req': False}, 'req': True}]
+
+
 def hostile_variables(rng, declared, valid):
     out = {}
     for name in declared:
@@ -193,6 +223,8 @@ def hostile_variables(rng, declared, valid):
             continue
         if k < 0.6 and name in valid:
             out[name] = valid[name]
+        elif k < 0.72:
+            out[name] = near_value(rng)
         else:
             out[name] = rng.choice(HOSTILE_VALUES)
     if rng.random() < 0.2:
